@@ -37,6 +37,22 @@ def sortProps (ps : List (Key × OV)) : List (Key × OV) :=
 
 def cfg : Cfg := Cfg.current
 
+/-- value of the growth profiles (`bulk_val` in harness/src/streams/index.rs): "k<j>" ++ 'x' × pad -/
+def bulkVal (j pad : Nat) : OV :=
+  .str ((("k" ++ toString j).toList.map fun c => UInt8.ofNat c.toNat) ++ List.replicate pad 0x78)
+
+def stageAll (st : St) (ops : List TxOp) : St × String × String × String :=
+  ({ st with staged := st.staged ++ ops }, "ok", "-", "")
+
+def runQuery (st : St) (q : Query) : St × String × String × String :=
+  let rw := queryRows cfg st.w q
+  let rwo := queryRows cfg st.wo q
+  let obs := if rw == rwo then "same" else "diff"
+  let m := obs ++ " | w=" ++ showRows rw ++ " wo=" ++ showRows rwo ++ " " ++
+    (if usesIndex st.w q then "seek" else "scan")
+  -- the spec speaks about well-formed histories only (ill-formed shrinks are not failures)
+  (st, m, if WF st.hist then "same" else "-", " ".intercalate (triggerIds cfg st.hist q))
+
 def stage (st : St) (op : TxOp) : St × String × String × String :=
   ({ st with staged := st.staged ++ [op] }, "ok", "-", "")
 
@@ -82,14 +98,28 @@ def step (st : St) (ws : List String) : St × String × String × String :=
     | none => (st, "bad-op", "-", "")
     | some ps =>
       let ls := if labels == "-" then [] else (labels.splitOn ":").map nameNat
-      let q : Query := ⟨ls, sortProps ps⟩
-      let rw := queryRows cfg st.w q
-      let rwo := queryRows cfg st.wo q
-      let obs := if rw == rwo then "same" else "diff"
-      let m := obs ++ " | w=" ++ showRows rw ++ " wo=" ++ showRows rwo ++ " " ++
-        (if usesIndex st.w q then "seek" else "scan")
-      -- the spec speaks about well-formed histories only (ill-formed shrinks are not failures)
-      (st, m, if WF st.hist then "same" else "-", " ".intercalate (triggerIds cfg st.hist q))
+      runQuery st ⟨ls, sortProps ps⟩
+  | ["bulknode", first, count, l, k, m, pad] =>
+    match first.toNat?, count.toNat?, m.toNat?, pad.toNat? with
+    | some first, some count, some m, some pad =>
+      stageAll st ((List.range count).flatMap fun j =>
+        [.node (some (nameNat l)), .set (first + j) (nameNat k) (bulkVal ((first + j) % (max m 1)) pad)])
+    | _, _, _, _ => (st, "bad-op", "-", "")
+  | ["bulkset", first, count, k, m, shift, pad] =>
+    match first.toNat?, count.toNat?, m.toNat?, shift.toNat?, pad.toNat? with
+    | some first, some count, some m, some shift, some pad =>
+      stageAll st ((List.range count).map fun j =>
+        .set (first + j) (nameNat k) (bulkVal ((first + j + shift) % (max m 1)) pad))
+    | _, _, _, _, _ => (st, "bad-op", "-", "")
+  | ["bulkrem", first, count, stp, k] =>
+    match first.toNat?, count.toNat?, stp.toNat? with
+    | some first, some count, some stp =>
+      stageAll st ((List.range count).map fun j => .rem (first + j * stp) (nameNat k))
+    | _, _, _ => (st, "bad-op", "-", "")
+  | ["bq", _form, l, k, j, pad] =>
+    match j.toNat?, pad.toNat? with
+    | some j, some pad => runQuery st ⟨[nameNat l], [(nameNat k, bulkVal j pad)]⟩
+    | _, _ => (st, "bad-op", "-", "")
   | _ => (st, "bad-op", "-", "")
 
 def stream : Stream := { σ := St, init := St.init, step := step }
